@@ -176,6 +176,26 @@ fn run_query(t: &[&str], out: &mut RunOut, line: &str) -> (String, Option<String
     if cls(&bm) != cls(&bs) || cls(&vm) != cls(&vs) { err = Some(format!("the mutable view's lookup differs from the read-only one: bytes {bm} vs {bs}, typed {vm} vs {vs}")); }
     let bs = if cls(&bm) == cls(&bs) { bs } else { format!("{bs}/mut:{bm}") };
     let vs = if cls(&vm) == cls(&vs) { vs } else { format!("{vs}/mut:{vm}") };
+    // the variable-length getters (first / with repetition) hand their type exactly the value bytes of the entry: they must
+    // answer like the byte lookup, through each of the three views
+    {
+        fn q_varlen<const D: u64>(buf: &[u8], rep: usize) -> Result<String, ProgramError> {
+            let st = TlvStateBorrowed::unpack(buf)?;
+            let v: Raw<D> = st.get_variable_len_value_with_repetition::<Raw<D>>(rep)?;
+            let s = st.get_bytes_with_repetition::<Tag<D>>(rep)?;
+            let mut owned_buf = buf.to_vec();
+            let mv: Raw<D> = TlvStateMut::unpack(&mut owned_buf)?.get_variable_len_value_with_repetition::<Raw<D>>(rep)?;
+            let ov: Raw<D> = TlvStateOwned::unpack(buf.to_vec())?.get_variable_len_value_with_repetition::<Raw<D>>(rep)?;
+            if rep == 0 && st.get_first_variable_len_value::<Raw<D>>()?.0 != v.0 { return Ok("first-differs".into()); }
+            Ok(if v.0 == s && mv.0 == s && ov.0 == s { "same".into() } else { format!("differs:{}", v.0.len()) })
+        }
+        match guarded(|| with_tag!(tag, q_varlen, &buf, rep)) {
+            None => err = Some("variable-length lookup panicked".into()),
+            Some(Ok(x)) if x != "same" => err = Some(format!("the variable-length getter does not return the entry's value bytes ({x})")),
+            Some(Ok(_)) => { if !bs.starts_with("ok") { err = Some("the variable-length lookup succeeded where the byte lookup failed".into()); } }
+            Some(Err(_)) => { if bs.starts_with("ok") { err = Some("the variable-length lookup failed where the byte lookup succeeded".into()); } }
+        }
+    }
     // oracle: the format, stated independently
     let spec = spec_parse(&buf);
     match (&spec, views.starts_with("ok")) {
